@@ -331,4 +331,39 @@ def c18(tier, seed):
                 exhaustive=True)
 
 
-CHECKS = {'C04': c04, 'C18': c18, 'C15': c15, 'C20': c20, 'C11': c11, 'C07': c07, 'C08': c08, 'C09': c09, 'C19': c19, 'C10': c10, 'C01': c01, 'C02': c02, 'C03': c03, 'C05': c05, 'C06': c06, 'C12': c12}
+
+def c13(tier, seed):
+    import random
+    quick = tier == 'quick'
+    t = 'quick' if quick else 'thorough'
+
+    def threads(tier_, seed_):
+        rnd = random.Random(seed_)
+        return [{'threads': n, 'seqs': [[rnd.randint(1, 12) for _ in range(25 if quick else 120)] for _ in range(n)]}
+                for n in ((2, 4, 8, 16) if quick else (2, 3, 4, 6, 8, 12, 16, 16))]
+
+    def retention(tier_, seed_):
+        return [{'flavour': f, 'kind': k, 'n': n} for f in ('func', 'view', 'view_ctx', 'schema', 'typed')
+                for k in ('sync', 'async') for n in ((1, 10, 200) if quick else (1, 10, 1000))]
+    return dict(stages=[
+        Stage('history', mc=('HistoryMC', 'History_%s.cfg' % t), emit=('HistoryMC', 'History_%s_emit.cfg' % t),
+              driver='history', trace=('DispatcherTrace', 'DispatcherTrace.cfg'), extra_scenarios=threads,
+              nontrivial=lambda tr: len(tr['ev']) >= 3),
+        Stage('retention', driver='retention', trace=('HistoryTrace', 'HistoryTrace.cfg'), extra_scenarios=retention,
+              deviations={'ViewSignatureCache': 'HistoryTrace_dev_ViewSignatureCache.cfg'},
+              nontrivial=lambda tr: len(tr['ev']) >= 10)],
+        rule='(a) ALL histories of length %d over a 12-class request corpus (calls, notifications, every failure class, batches, '
+             'rejected documents) on ONE dispatcher with middlewares and generic + per-code error handlers (sync / async '
+             'alternating): every single dispatch is validated by TLC against Dispatcher.tla, i.e. its reply may depend on its '
+             'own text only; (b) N in {1, 10, %d} dispatches with a fresh context object each for function methods (context by '
+             'name), view methods without / with context, JSON-schema and pydantic validated methods, sync and async: after '
+             'every dispatch gc runs and the live contexts and the growth of gc-tracked objects are reported (required: 0 / no); '
+             '(c) thread pools of 2..16 threads dispatching random interleaved sequences over the corpus on one synchronous '
+             'dispatcher (sampled schedules, seeded by VERIF_SEED), every dispatch validated on its own; non-trivial = a '
+             'dispatch with >= 3 events / a retention run of >= 10 dispatches' % ((3, 200) if quick else (4, 1000)),
+        assumptions=ASSUME_DISP + ['thread schedules are sampled, not enumerated (CPython has no deterministic scheduler); asyncio '
+                                   'schedules are enumerated under C10', 'gc.collect() + object counts observe retention; methods keep no state of their own'],
+        exhaustive=False)
+
+
+CHECKS = {'C04': c04, 'C13': c13, 'C18': c18, 'C15': c15, 'C20': c20, 'C11': c11, 'C07': c07, 'C08': c08, 'C09': c09, 'C19': c19, 'C10': c10, 'C01': c01, 'C02': c02, 'C03': c03, 'C05': c05, 'C06': c06, 'C12': c12}
